@@ -100,6 +100,15 @@ def declare(P, variant, calendar):
         ws = {"CW": list(cw._cumulative_workers), "W3": [w3]}
         REQS.clear()
         REQS.update({("A", "CW"): ("span",), ("B", "CW"): ("span",), ("B", "W3"): ("inside",)})
+    elif variant == "cumulative_in_list":
+        # a cumulative worker as one of the alternatives of a selection
+        cw = ps.CumulativeWorker(name="CW", size=2)
+        w1 = ps.Worker(name="W1")
+        a.obj.add_required_resource(ps.SelectWorkers(list_of_workers=[w1, cw], nb_workers_to_select=1))
+        b.obj.add_required_resource(ps.SelectWorkers(list_of_workers=[cw, w1], nb_workers_to_select=1))
+        ws = {"CW": list(cw._cumulative_workers), "W1": [w1]}
+        REQS.clear()
+        REQS.update({("A", "CW"): ("span",), ("B", "CW"): ("span",), ("A", "W1"): ("span",), ("B", "W1"): ("span",)})
     elif variant == "buffer_indicator":
         w1 = ps.Worker(name="W1")
         a.obj.add_required_resource(w1)
@@ -622,6 +631,7 @@ def shapes(tier):
             if tier == "quick" and cal == "delta" and variant not in ("plain", "workers"):
                 continue
             out.append(solution_shape(variant, cal))
+    out.append(solution_shape("cumulative_in_list", "none"))
     for variant in (("workers", "cumulative") if tier == "thorough" else ("workers",)):
         out.append(twice_shape(variant))
     for variant in ("scheduled", "b_unscheduled", "cumulative"):
